@@ -373,3 +373,63 @@ fn c03_label_text_roundtrip_2() {
     label_text_roundtrip::<2, 10>()
 }
 
+
+// ------------------------------------------------ validating constructors
+fn raw<const N: usize>() -> ([u8; N], usize) {
+    let d: [u8; N] = kani::any();
+    let n: usize = kani::any();
+    kani::assume(n <= N);
+    (d, n)
+}
+
+// @funcs: Name::from_slice, Name::check_slice, Name::from_octets
+// @bound: every octet string of 0..=6 symbolic octets: accepted as an absolute name <=> it is a sequence of labels (1..=63) ending in exactly one root label (independent validator)
+// @outside: the 255-octet total limit (needs names longer than the bound; the builder-side limit is decided by the induction harnesses, the skip-side by C01)
+#[kani::proof]
+#[kani::unwind(9)]
+fn c03_name_from_slice_accepts_exactly_valid() {
+    let (d, n) = raw::<6>();
+    let r = Name::from_slice(&d[..n]);
+    assert!(r.is_ok() == valid_absolute_k(&d[..n], 6));
+    if let Ok(nm) = r {
+        assert!(nm.as_slice().len() == n);
+        assert!(nm.is_root() == (n == 1));
+    }
+    kani::cover!(r.is_ok() && n == 6, "six-octet name accepted");
+}
+
+// @funcs: RelativeName::from_slice, RelativeName::check_slice
+// @bound: every octet string of 0..=6 symbolic octets: accepted as a relative name <=> it is a sequence of labels 1..=63 without a root label
+#[kani::proof]
+#[kani::unwind(9)]
+fn c03_relative_from_slice_accepts_exactly_valid() {
+    let (d, n) = raw::<6>();
+    let r = RelativeName::from_slice(&d[..n]);
+    assert!(r.is_ok() == valid_relative_k(&d[..n], 6));
+    kani::cover!(r.is_ok() && n == 6, "six-octet relative name accepted");
+    kani::cover!(r.is_ok() && n == 0, "empty relative name accepted");
+}
+
+// @funcs: Label::split_from, Label::from_slice
+// @bound: every octet string of 0..=5 symbolic octets: split_from returns a label of exactly the announced length (<= 63) and the rest, or an error for pointers / reserved types / short input
+#[kani::proof]
+#[kani::unwind(8)]
+fn c03_label_split_from() {
+    let (d, n) = raw::<5>();
+    match Label::split_from(&d[..n]) {
+        Ok((l, rest)) => {
+            assert!(n >= 1 && d[0] <= 63);
+            assert!(l.len() == d[0] as usize);
+            assert!(1 + l.len() + rest.len() == n);
+            let i: usize = kani::any();
+            if i < l.len() {
+                assert!(l.as_slice()[i] == d[1 + i]);
+            }
+        }
+        Err(_) => {
+            assert!(n == 0 || d[0] > 63 || n < 1 + d[0] as usize);
+        }
+    }
+    let (e, m) = raw::<5>();
+    assert!(Label::from_slice(&e[..m]).is_ok());
+}
